@@ -1373,7 +1373,96 @@ def _doe_cases(pal):
     return out
 
 
-_BATCH = {'cfg': 32, 'kkt': 9, 'doe': 12}
+_BATCH = {'cfg': 32, 'kkt': 9, 'doe': 12, 'ndopt': 12}
+
+
+# ------------------------------------------------------------------ N-D option arrays
+
+_ND_KEYS = ['ref', 'ref0', 'scaler', 'adder', 'lower', 'upper']
+
+
+def _ndopt_cases(pal):
+    out = []
+    for role in ('dv', 'con'):
+        for key in _ND_KEYS:
+            for order in ('C', 'F', 'T', 'strided'):
+                out.append({'kind': 'ndopt', 'role': role, 'key': key, 'order': order, 'pal': pal})
+    return out
+
+
+def check_ndopt(case):
+    """A 2-D variable whose scaling / bound option is given as a 2-D array in various memory
+    layouts: the entries pair with the entries of the variable in logical (row-major) order."""
+    import openmdao.api as om
+    key, order, role = case['key'], case['order'], case['role']
+    shape = (2, 3)
+    base = np.array([[2.0, -0.5, 4.0], [0.25, -8.0, 1.5]]) + 0.125 * case['pal']
+    if key in ('ref0', 'adder', 'lower'):
+        base = base - 10.0
+    if key == 'upper':
+        base = base + 20.0
+    if order == 'C':
+        arr = np.ascontiguousarray(base)
+    elif order == 'F':
+        arr = np.asfortranarray(base)
+    elif order == 'T':
+        arr = np.ascontiguousarray(base.T).T          # a transposed view
+    else:
+        big = np.zeros((4, 6))
+        big[::2, ::2] = base
+        arr = big[::2, ::2]                            # neither C nor F contiguous
+    x0 = np.array([[0.5, -1.25, 2.0], [1.0, 0.75, -0.5]])
+    p = om.Problem(reports=None)
+    p.model.add_subsystem('c', om.ExecComp(['y = 2.0*x + 1.0', 'f = sum(x)'], x=np.ones(shape),
+                                           y=np.ones(shape)), promotes=['*'])
+    kw = {key: arr}
+    if role == 'dv':
+        p.model.add_design_var('x', **kw)
+        p.model.add_constraint('y', upper=1000.0)
+    else:
+        p.model.add_design_var('x')
+        if key not in ('lower', 'upper'):
+            kw['upper'] = 1000.0
+        p.model.add_constraint('y', **kw)
+    p.model.add_objective('f')
+    vio = []
+    cls = '%s/%s/%s' % (role, key, order)
+
+    def V(what, msg):
+        vio.append({'sig': 'C20:ndopt_%s:%s' % (what, cls), 'case': dict(case),
+                    'msg': 'ndopt_%s [%s]: %s' % (what, cls, msg)})
+    try:
+        with contextlib.redirect_stdout(io.StringIO()):
+            p.setup()
+            p.set_val('x', x0)
+            p.run_model()
+            drv = p.driver
+            vals = drv.get_design_var_values() if role == 'dv' else drv.get_constraint_values()
+            got = np.ravel(vals['x' if role == 'dv' else 'y'])
+            meta = (drv._designvars if role == 'dv' else drv._cons)['x' if role == 'dv' else 'y']
+    except Exception as exc:
+        V('raises', '%s: %s' % (type(exc).__name__, str(exc)[:300]))
+        return {'violation': 1}, 0, vio
+    v = np.ravel(x0 if role == 'dv' else 2.0 * x0 + 1.0)
+    b = np.ravel(base)
+    adder, scaler = 0.0, 1.0
+    if key == 'ref':
+        scaler = 1.0 / b
+    elif key == 'ref0':
+        adder, scaler = -b, 1.0 / (1.0 - b)
+    elif key == 'scaler':
+        scaler = b
+    elif key == 'adder':
+        adder = b
+    want = (v + adder) * scaler
+    if got.shape != want.shape or not np.allclose(got, want, rtol=1e-12, atol=1e-12):
+        V('value', 'driver value %s expected %s' % (got.tolist(), want.tolist()))
+    if key in ('lower', 'upper'):
+        gb = np.ravel(np.asarray(meta[key], dtype=float))
+        if gb.size != b.size or not np.allclose(gb, b, rtol=1e-12, atol=1e-12):
+            V('bound', '%s bound as seen by the driver %s expected %s' % (key, gb.tolist(),
+                                                                         b.tolist()))
+    return {'violation' if vio else 'ndopt_ok': 1}, int(not vio), vio
 
 
 def _batches(flat):
@@ -1403,6 +1492,7 @@ def _flat_cases(tier, seed):
         out += _ball('M2', pal, 2)
         out += _kkt_cases(pal, tier)
         out += _doe_cases(pal)
+        out += _ndopt_cases(pal)
     else:
         for k in range(4):
             pk = (pal + k) % 4
@@ -1416,6 +1506,7 @@ def _flat_cases(tier, seed):
                                           'arr_mix_scaler'], rmin=3)
         out += _kkt_cases(pal, tier)
         out += _kkt_cases((pal + 1) % 4, 'quick')
+        out += _ndopt_cases(pal)
     return out
 
 
@@ -1461,6 +1552,9 @@ def _check_case(case):
         sample = case
     elif kind == 'doe':
         oc, nt, vio = check_doe(case)
+        sample = case
+    elif kind == 'ndopt':
+        oc, nt, vio = check_ndopt(case)
         sample = case
     else:
         raise ValueError(kind)
